@@ -163,7 +163,7 @@ def pInit : P Msg :=
     P.pure (.sessInit ka sm xm node ext)
 
 /-- Body parser per message type: returns the message and the remaining octets, or `none` when the
-    buffer does not yet hold the whole message (or the type is unknown: the real decoder waits for ever). -/
+    buffer does not yet hold the whole message (unknown types are rejected before, by `knownType`). -/
 def parseBody (t : Nat) : P Msg :=
   if t = tXferSegment then pSegment
   else if t = tXferAck then pAck
@@ -174,12 +174,18 @@ def parseBody (t : Nat) : P Msg :=
   else if t = tSessInit then pInit
   else fun _ => none
 
+def knownType (t : Nat) : Bool :=
+  t == tXferSegment || t == tXferAck || t == tXferRefuse || t == tKeepalive || t == tSessTerm
+    || t == tMsgReject || t == tSessInit
+
 /-- `Messenger.recv_raw`'s probe of the current receive buffer. -/
 def probe (inConn : Bool) (buf : Bytes) : Probe :=
   if inConn then
     match buf with
     | [] => .need
     | t :: rest =>
+      -- an unknown message type cannot be delimited: the connection is closed
+      if !knownType t.toNat then .bad else
       match parseBody t.toNat rest with
       | some (m, r) => .got m (buf.length - r.length)
       | none => .need
@@ -195,7 +201,7 @@ def probe (inConn : Bool) (buf : Bytes) : Probe :=
 structure Rx where
   inConn : Bool := false
   buf : Bytes := []
-  /-- closed because of a bad contact header -/
+  /-- closed because of a bad contact header or an unknown message type -/
   dead : Bool := false
   deriving Repr, DecidableEq, Inhabited
 
